@@ -29,8 +29,8 @@ TIERS = {
 }
 
 
-MAX_REPORTED = 8      # distinct signatures written out as replay files per batch
-MAX_MINIMISED = 4     # of which this many are minimised (the rest are reported unminimised)
+MAX_REPORTED = 5      # distinct signatures written out as replay files per batch
+MAX_MINIMISED = 3     # of which this many are minimised (the rest are reported unminimised)
 
 
 def machine(prop: str):
